@@ -774,7 +774,14 @@ namespace pl
             j.i("goalType", w.goalType).i("rangeMode", w.rangeMode).num("threshold", w.threshold);
             return j;
         }
-        void viol(const std::string &clause, const J &d) const { sink.viol(prop + ":" + pre + clause + ":" + pi.name, d); }
+        // optional re-mapping of a clause (used by C03 to fold the symptoms of one root cause into one key)
+        std::function<std::string(const std::string &)> remap;
+        void viol(const std::string &clause, const J &d) const
+        {
+            std::string cl = pre + clause;
+            if (remap) cl = remap(cl);
+            sink.viol(prop + ":" + cl + ":" + pi.name, d);
+        }
     };
 
     inline bool sameReals(const World &w, const ob::State *s, const std::vector<double> &r)
@@ -862,8 +869,11 @@ namespace pl
             if (gr)
             {
                 double want = gr->distanceGoal(last);
-                // the reported difference is the distance of the last state to the goal (GoalRegion semantics)
-                if (!(std::fabs(sol.difference_ - want) <= 1e-9 * (1 + w.ext)))
+                // the reported difference must be the distance from the path's last state to the goal: either to the goal
+                // itself (distanceGoal, what most planners report) or to a state inside the goal region (AIT*/EIT* report the
+                // distance to the closest goal-region state they hold), i.e. a value in [distanceGoal - threshold, distanceGoal]
+                const double tol = 1e-9 * (1 + w.ext);
+                if (!(sol.difference_ <= want + tol && sol.difference_ >= want - gr->getThreshold() - tol))
                     c.viol("approx-difference", c.detail("reported goal difference disagrees with the path's last state").num("reported", sol.difference_).num("actual", want));
             }
         }
